@@ -212,6 +212,61 @@ def canon_model(ans):
             "errors": sorted("/".join(k) for k in ans["errors"]), "second": j(ans["second"])}
 
 
+def reported(p, errors):
+    """the path itself, or a directory above it, went through the error callback"""
+    parts = p.split("/")
+    return any("/".join(parts[:i]) in errors for i in range(1, len(parts) + 1))
+
+
+def state_oracle(ctx, case, impl, before, prior, unavailable, where=None):
+    """the property on one observed compare+apply: `before`/`impl["ws"]` = workspace walk before/after, `prior` = file keys that were in
+    the workspace, `unavailable` = target paths whose source (object, or the directory object above them) is not in the storage now"""
+    tgt = split(case["target"])
+    w = {} if where is None else {"where": where}
+    if impl["outcome"] != "ok":
+        # without deletion a file in the way of a target directory is a refusal, not a convergence failure
+        blocked = not case["delete"] and any(tuple(p.split("/")) in prior for k in tgt for p in ["/".join(k[:i]) for i in range(1, len(k))])
+        ctx.oracle(blocked, case, {"why": "apply raised", "impl": impl["outcome"], **w})
+        return False
+    ws = impl["ws"]
+    ex = {"/".join(k) for k in case["exec_target"]}
+    for k, c in tgt.items():
+        p = "/".join(k)
+        blocked = not case["delete"] and (any("/".join(k[:i]) in {"/".join(q) for q in prior} for i in range(1, len(k)))
+                                           or any(q[: len(k)] == k and q != k for q in prior))
+        if blocked:
+            continue  # without deletion a kind change cannot be carried out: nothing outside the target may be removed
+        if p in unavailable:
+            ctx.oracle(reported(p, impl["errors"]) or (p in ws and ws[p][:2] == ["file", md5hex(c)]), case,
+                       {"why": "an entry whose source is unavailable was silently skipped", "path": p, "errors": impl["errors"], "got": ws.get(p), **w},
+                       signature="symlink-to-unavailable-source-not-reported" if case["link"] == "symlink" and ws.get(p, [None])[0] == "broken" else None)
+            continue
+        ctx.oracle(p in ws and ws[p][:2] == ["file", md5hex(c)], case, {"why": "a target file is missing or has the wrong bytes", "path": p, "got": ws.get(p), **w})
+        if p in ex and p in ws:
+            ctx.oracle(ws[p][0] == "file" and ws[p][2] is True, case, {"why": "an executable entry is not executable", "path": p, **w})
+    for k in tgt:
+        for i in range(1, len(k)):
+            d = "/".join(k[:i])
+            if "/".join(k) not in unavailable and case["delete"]:
+                ctx.oracle(ws.get(d) == ["dir"], case, {"why": "a target directory was not created", "dir": d, **w})
+    tgt_paths = {"/".join(k) for k in tgt} | {"/".join(k[:i]) for k in tgt for i in range(1, len(k))}
+    if case["delete"]:
+        extra = [p for p in ws if p not in tgt_paths]
+        ctx.oracle(not extra, case, {"why": "paths outside the target remain after a checkout with deletion", "extra": extra, **w})
+        if not unavailable:
+            for name in ("second", "second_fresh"):
+                if name not in impl:
+                    continue
+                sec = impl[name]
+                ctx.oracle(isinstance(sec, dict) and "err" not in sec and not any(sec[n] for n in ("files_delete", "dirs_delete", "files_create", "dirs_create")),
+                           case, {"why": "a second compare still finds something to create or delete", name: sec, **w})
+    else:
+        for p, n in before.items():
+            if p not in tgt_paths and not any(p.startswith(t + "/") for t in {"/".join(k) for k in tgt}):
+                ctx.oracle(ws.get(p) == n, case, {"why": "without deletion a path outside the target was removed or changed", "path": p, "before": n, "after": ws.get(p), **w})
+    return True
+
+
 def check(ctx, case, ans=None):
     impl, before = run_impl(ctx, case)
     if ans is None:
@@ -238,47 +293,186 @@ def check(ctx, case, ans=None):
         m = canon_model(ans)
         ctx.corr("IndexCheckout.compare~compare() (actions)", case, impl.get("actions"), m.get("actions"))
     # ---- oracle on the implementation
-    if impl["outcome"] != "ok":
-        # without deletion a file in the way of a target directory is a refusal, not a convergence failure
-        blocked = not case["delete"] and any(tuple(p.split("/")) in prior for k in tgt for p in ["/".join(k[:i]) for i in range(1, len(k))])
-        ctx.oracle(blocked, case, {"why": "apply raised", "impl": impl["outcome"]})
-        return
-    ws = impl["ws"]
     unavailable = {"/".join(k) for k, c in tgt.items() if md5hex(c) in case["missing"]}
-    ex = {"/".join(k) for k in case["exec_target"]}
-    for k, c in tgt.items():
-        p = "/".join(k)
-        blocked = not case["delete"] and (any("/".join(k[:i]) in {"/".join(q) for q in prior} for i in range(1, len(k)))
-                                           or any(q[: len(k)] == k and q != k for q in prior))
-        if blocked:
-            continue  # without deletion a kind change cannot be carried out: nothing outside the target may be removed
-        if p in unavailable:
-            ctx.oracle(p in impl["errors"] or (p in ws and ws[p][:2] == ["file", md5hex(c)]), case,
-                       {"why": "an entry whose source is unavailable was silently skipped", "path": p, "errors": impl["errors"], "got": ws.get(p)},
-                       signature="symlink-to-unavailable-source-not-reported" if case["link"] == "symlink" and ws.get(p, [None])[0] == "broken" else None)
-            continue
-        ctx.oracle(p in ws and ws[p][:2] == ["file", md5hex(c)], case, {"why": "a target file is missing or has the wrong bytes", "path": p, "got": ws.get(p)})
-        if p in ex and p in ws:
-            ctx.oracle(ws[p][0] == "file" and ws[p][2] is True, case, {"why": "an executable entry is not executable", "path": p})
-    for k in tgt:
-        for i in range(1, len(k)):
-            d = "/".join(k[:i])
-            if "/".join(k) not in unavailable and case["delete"]:
-                ctx.oracle(ws.get(d) == ["dir"], case, {"why": "a target directory was not created", "dir": d})
-    tgt_paths = {"/".join(k) for k in tgt} | {"/".join(k[:i]) for k in tgt for i in range(1, len(k))}
-    if case["delete"]:
-        extra = [p for p in ws if p not in tgt_paths]
-        ctx.oracle(not extra, case, {"why": "paths outside the target remain after a checkout with deletion", "extra": extra})
-        if not unavailable:
-            sec = impl["second"]
-            ctx.oracle(isinstance(sec, dict) and "err" not in sec and not any(sec[n] for n in ("files_delete", "dirs_delete", "files_create", "dirs_create")),
-                       case, {"why": "a second compare still finds something to create or delete", "second": sec})
-    else:
-        for p, n in before.items():
-            if p not in tgt_paths and not any(p.startswith(t + "/") for t in {"/".join(k) for k in tgt}):
-                ctx.oracle(ws.get(p) == n, case, {"why": "without deletion a path outside the target was removed or changed", "path": p, "before": n, "after": ws.get(p)})
+    if not state_oracle(ctx, case, impl, before, set(prior), unavailable):
+        return
     if len(ctx.samples) < 2 and kindchg:
         ctx.sample({"case": {k: case[k] for k in ("prior", "target", "delete", "link", "lazy")}, "actions": impl["actions"]})
+
+
+# ---------------------------------------------------------------- histories: several checkouts towards one target index
+#
+# A checkout is rarely the only one: the objects of a target arrive over time (a fetch between two checkouts), the workspace is
+# edited in between, and the caller keeps the target index object (with the non-raising error hook DVC installs on it) or builds a
+# new one.  Every round of such a history is a (workspace state, target index, storage) triple of the property: what is unavailable
+# *now* has to be reported *now*, what is available has to be there afterwards, and once everything has arrived the workspace is the target.
+
+
+def gen_history(rng):
+    while True:
+        case = gen_case(rng)
+        tgt = split(case["target"])
+        tops = sorted({k[0] for k in tgt if len(k) > 1})
+        if tops:
+            break
+    prior = split(case["prior"])
+    lazy = case["lazy"] if case["lazy"] is not None else rng.choice(tops)
+    kindchg = any(any(k2[: len(k)] == k and k2 != k for k2 in tgt) for k in prior) or any(any(k2[: len(k)] == k and k2 != k for k2 in prior) for k in tgt)
+    case["lazy"] = lazy
+    case["exec_target"] = [k for k in case["exec_target"] if k[0] != lazy]
+    case["own_storage"] = []
+    if kindchg or case["empty_dirs"]:
+        case["delete"] = True  # (without deletion a kind change is refused: the single-checkout family has those)
+    case["link"] = rng.choice(["copy", "copy", "hardlink", "symlink"])
+    hashes = sorted({md5hex(c) for c in tgt.values()})
+    # a dangling link cannot be staged again (C10's finding), so with symlinks only the directory object is late
+    case["missing"] = [h for h in hashes if rng.random() < 0.25] if case["link"] != "symlink" else []
+    case["lazy_missing"] = rng.random() < 0.75
+    case["reuse"] = rng.random() < 0.75  # the same target index object in every round / a new one per round
+    case["index_onerror"] = "collect" if rng.random() < 0.7 else "default"  # non-raising hook on the index (as DVC sets) / the raising default
+    paths = sorted(case["target"])
+    dirs = sorted({"/".join(k[:i]) for k in tgt for i in range(1, len(k))})
+    left, dir_left = list(case["missing"]), case["lazy_missing"]
+    rounds = []
+    n = rng.randrange(2, 5)
+    for i in range(n):
+        arrive, arrive_dir, perturb = [], False, []
+        if i > 0:
+            last = i == n - 1 and rng.random() < 0.6
+            arrive = [h for h in left if last or rng.random() < 0.4]
+            left = [h for h in left if h not in arrive]
+            arrive_dir = dir_left and (last or rng.random() < 0.4)
+            dir_left = dir_left and not arrive_dir
+            for _ in range(rng.randrange(0, 3)):
+                r = rng.random()
+                if r < 0.4:
+                    perturb.append(["rm", rng.choice(paths)])
+                elif r < 0.75:
+                    perturb.append(["write", rng.choice(paths), "~edited%d" % rng.randrange(100)])
+                else:
+                    perturb.append(["write", "/".join(([rng.choice(dirs)] if rng.random() < 0.5 else []) + ["stray%d" % rng.randrange(3)]), "stray"])
+        rounds.append({"arrive": arrive, "arrive_dir": bool(arrive_dir), "perturb": perturb})
+    case["rounds"] = rounds
+    return case
+
+
+def perturb_ws(ws, ops):
+    for op in ops:
+        p = os.path.join(ws, *op[1].split("/"))
+        try:
+            if os.path.islink(p) or os.path.isfile(p):
+                os.unlink(p)  # never write through a link into the cache
+            if op[0] == "write" and not os.path.isdir(p):
+                write_file(p, op[2].encode("latin1"))
+        except OSError:
+            pass  # something that is not a directory is in the way: the edit does not happen
+
+
+def run_history(ctx, case):
+    from dvc_data.index import build
+    from dvc_data.index.checkout import apply, compare
+    from dvc_data.index.save import md5
+
+    names = ("files_delete", "dirs_delete", "files_create", "dirs_create", "files_chmod")
+    fs = stores.fs_local()
+    root = ctx.mkdtemp()
+    ws = os.path.join(root, "ws")
+    tgt, lazy = split(case["target"]), case["lazy"]
+    gen.materialize(ws, split(case["prior"]), exec_keys={tuple(k) for k in case["exec_prior"]})
+    for d in case["empty_dirs"]:
+        os.makedirs(os.path.join(ws, *d), exist_ok=True)
+    odb = stores.make_odb(os.path.join(root, "odb"), local=case["local"], type=[case["link"]])
+    contents = {md5hex(c): c for c in tgt.values()}
+    have = set(contents) - set(case["missing"])
+    for h in sorted(have):
+        stores.put_raw(odb.path, h, contents[h])
+    sub = {k[1:]: md5hex(c) for k, c in tgt.items() if k[0] == lazy}
+    dir_have = not case["lazy_missing"]
+    if dir_have:
+        stores.put_raw(odb.path, gen.canonical_oid(sub), gen.canonical_listing(sub))
+    index_errors = []
+
+    def make_index():
+        idx = build_target(case, odb)
+        if case["index_onerror"] == "collect":
+            idx.onerror = lambda entry, exc: index_errors.append("/".join(entry.key))
+        return idx
+
+    def actions(diff):
+        return {n: sorted("/".join(e.key) for e in getattr(diff, n)) for n in names}
+
+    shared = make_index() if case["reuse"] else None
+    out = []
+    for rnd in case["rounds"]:
+        for h in rnd["arrive"]:
+            stores.put_raw(odb.path, h, contents[h])
+            have.add(h)
+        if rnd["arrive_dir"]:
+            stores.put_raw(odb.path, gen.canonical_oid(sub), gen.canonical_listing(sub))
+            dir_have = True
+        perturb_ws(ws, rnd["perturb"])
+        before = walk_ws(ws)
+        new = shared if shared is not None else make_index()
+        errors = []
+        del index_errors[:]
+
+        def onerror(src, dest, exc):
+            errors.append(os.path.relpath(dest, ws) if dest else None)
+
+        def f():
+            diff = compare(md5(build(ws, fs)), new, delete=case["delete"])
+            acts = actions(diff)
+            apply(diff, ws, fs, update_meta=False, onerror=onerror, links=[case["link"]] if case["link"] != "copy" else None)
+            return acts
+
+        kind, acts = safe_call(f)
+        after = walk_ws(ws)
+        k2, second = safe_call(lambda: actions(compare(md5(build(ws, fs)), new, delete=case["delete"])))
+        k3, fresh = safe_call(lambda: actions(compare(md5(build(ws, fs)), make_index(), delete=case["delete"])))
+        unavailable = {"/".join(k) for k, c in tgt.items() if md5hex(c) not in have or (k[0] == lazy and not dir_have)}
+        out.append(({"outcome": "ok" if kind == "ok" else acts, "actions": acts if kind == "ok" else None, "ws": after,
+                     "errors": sorted(set(e for e in errors if e)), "index_errors": sorted(set(index_errors)),
+                     "second": second if k2 == "ok" else {"err": second}, "second_fresh": fresh if k3 == "ok" else {"err": fresh}},
+                    before, unavailable, dir_have))
+    return out
+
+
+def check_history(ctx, case):
+    obs = run_history(ctx, case)
+    late = bool(case["missing"]) or case["lazy_missing"]
+    ctx.case(case, nontrivial=late)
+    ctx.count("history")
+    ctx.count("history rounds=%d" % len(case["rounds"]))
+    ctx.count("history same_index_object=%s" % case["reuse"])
+    ctx.count("history index_onerror=%s" % case["index_onerror"])
+    ctx.count("history link=%s delete=%s" % (case["link"], case["delete"]))
+    if case["lazy_missing"]:
+        ctx.count("history dir_object_late" + (" arrives" if any(r["arrive_dir"] for r in case["rounds"]) else " never arrives"))
+    if any(r["perturb"] for r in case["rounds"]):
+        ctx.count("history workspace_edited_between")
+    if obs and not obs[-1][2]:
+        ctx.count("history ends_with_everything_available")
+    for i, (impl, before, unavailable, dir_have) in enumerate(obs):
+        where = {"round": i, "of": len(obs), "same_index_object": case["reuse"], "unavailable_now": sorted(unavailable)}
+        prior = {tuple(p.split("/")) for p, n in before.items() if n[0] != "dir"}
+        if not dir_have:
+            # the directory object cannot be loaded in this round: reported in this round, whatever earlier rounds reported
+            ctx.oracle(impl["outcome"] == "ok" and case["lazy"] in impl["errors"], case,
+                       {"why": "a directory whose object is unavailable was not reported through the error callback",
+                        "dir": case["lazy"], "errors": impl["errors"], "outcome": impl["outcome"], "actions": impl["actions"], **where})
+        if not state_oracle(ctx, case, impl, before, prior, unavailable, where=where):
+            continue
+        if not unavailable:
+            ctx.oracle(not impl["errors"], case, {"why": "the error callback was called although all of the target's data is available",
+                                                   "errors": impl["errors"], "index_errors": impl["index_errors"], **where})
+    if len(ctx.samples) < 3 and late and case["reuse"]:
+        ctx.sample({"history": {k: case[k] for k in ("target", "lazy", "missing", "lazy_missing", "index_onerror", "rounds")},
+                    "errors_per_round": [o[0]["errors"] for o in obs]})
+
+
+def run_histories(ctx, n):
+    for _ in range(n):
+        check_history(ctx, gen_history(ctx.rng))
 
 
 def run_cases(ctx, n):
@@ -291,16 +485,25 @@ def run(ctx):
         "(prior workspace, target index) pairs over nested trees: target derived from the prior by modify/delete/add and "
         "file<->(nested) directory replacements at depth 1-3, targets with explicit or implicit directory entries or one top-level "
         "directory given as an unloaded directory object, exec bits, empty directories in the workspace, unavailable cache objects, "
-        "delete on/off, copy/hardlink/symlink, both store classes. non-trivial = a path changes kind; distinct = sha256 of the case"
+        "delete on/off, copy/hardlink/symlink, both store classes. non-trivial = a path changes kind; distinct = sha256 of the case. "
+        "histories (oracle only): 2-4 compare+apply rounds towards one target with a lazily loaded directory, on the same target index object "
+        "or a new one per round, with the raising default or a non-raising error hook on the index; file objects and the directory object "
+        "missing at first and arriving between rounds (or never), workspace edits (remove / rewrite / stray file) between rounds; every round "
+        "is judged against what is available in that round, with a second compare on the same and on a fresh index object"
     )
     ctx.assumptions = ["'old' is the hashed workspace index md5(build(ws)) as DVC builds it", "link types other than copy are compared on actions and on the oracle only"]
     run_cases(ctx, ctx.n(140, 1500))
+    run_histories(ctx, ctx.n(60, 600))
 
 
 def search(ctx):
     run_cases(ctx, 1200)
+    run_histories(ctx, 400)
 
 
 def replay(ctx, payload):
     c = payload.get("case") or payload.get("diverging_case")
-    check(ctx, c)
+    if "rounds" in c:
+        check_history(ctx, c)
+    else:
+        check(ctx, c)
